@@ -408,7 +408,7 @@ class _Pending(Flow):
             o = self.qreb[id(s)]
             facts = shared.rebind_facts(self.prog, o)
             self.rebinds.append((o, facts))
-            if facts['kind'] in ('filtered', 'superset') and facts['table'][(True, False)] and facts['table'][(True, True)]:
+            if facts['kind'] in ('filtered', 'superset') and all(tb[(True, False)] and tb[(True, True)] for tb in (facts['table'], facts.get('table_queued', facts['table']))):
                 srcs = self._src_names(o.args[0])
                 vs = {x[1] for x in st if x[0] == 'in' and x[2] in srcs}
                 return (self._drop(st, lambda x: (x[0] == 'coll' and x[1] in srcs) or (x[0] == 'grew' and x[1] in vs)),)
@@ -528,9 +528,9 @@ def rule6(ctx, rep):
                 elif facts['kind'] == 'unknown':
                     r.check(False, f'{q}:{norm(o.node)[:120]}:keeps-pending', o.where, '', f'{q} rebinds the queue in a way the analysis cannot follow: {facts["detail"]}')
                 else:
-                    t = facts['table']
+                    t, k = facts['table'], facts.get('table_queued', facts['table'])
                     r.check(
-                        t[(True, False)] and t[(True, True)],
+                        t[(True, False)] and t[(True, True)] and k[(True, False)] and k[(True, True)],
                         f'{q}:{norm(o.node)[:120]}:keeps-pending',
                         o.where,
                         facts['detail'],
